@@ -46,7 +46,7 @@ func main() {
 	replay := flag.String("replay", "", "re-evaluate the obligation recorded in this replay file")
 	dump := flag.String("dump", "", "debug: roles | obs | engines")
 	fixtures := flag.String("fixture", "", "unused")
-	controls := flag.String("controls", "", "JSON file with the results of the positive controls run by run.sh (thorough tier); embedded in the evidence")
+	controls := flag.String("controls", "", "JSON file with the results of the controls run by run.sh (thorough tier), embedded in the evidence; 'pending' = they are still running")
 	flag.Parse()
 
 	if *fixtures != "" {
@@ -290,7 +290,11 @@ func run(repo, prop, tier, verif, onlyKey, dump, controls string) int {
 		WallS:       time.Since(start).Seconds(),
 		Violations:  violations,
 	}
-	if controls != "" {
+	if controls == "pending" {
+		// first pass of the thorough tier (run.sh): the tree is decided, the controls are still being analysed;
+		// this file is replaced when they have finished
+		ev.Coverage["controls"] = "pending: the verdict on the tree is complete; the positive and negative controls of the thorough tier were still running when this file was written"
+	} else if controls != "" {
 		if b, err := os.ReadFile(controls); err == nil {
 			var cs []map[string]string
 			if json.Unmarshal(b, &cs) == nil {
